@@ -20,6 +20,7 @@ type Unit struct {
 	GfdGeometry     [2]int   // rows, columns of the scaled connMatrix geometry (C14), 0 = real
 	InstrPkgs       []string // packages the rewriter instruments (default: the engine packages)
 	RewriteAllChans bool
+	KeepRepoTests   bool // do not hide gnet's own _test.go files (pass-through conformance run)
 }
 
 // Check is one property.
@@ -41,6 +42,10 @@ func checks() []Check {
 	return []Check{
 		{ID: "DEBUG", Level: "model_checking", Rule: "debug", Assumptions: commonAssumptions,
 			Units: []Unit{{Name: "debug", Pkg: ".", Tags: "verifmc", Test: "TestMC_Debug", Instrument: true, Env: []string{"GOMAXPROCS=2"}}}},
+		// CONF: "trusting the rewriter" (DESIGN §1.3): gnet's own tests run on the INSTRUMENTED tree with
+		// no scheduler attached (every shim passes straight through); not a property check.
+		{ID: "CONF", Level: "other", Rule: "pass-through conformance of the instrumented tree", Assumptions: commonAssumptions,
+			Units: []Unit{{Name: "conformance", Pkg: ".", Tags: "verifmc", Test: "(TestServer|TestEngineStop|TestWakeConn|TestCloseConnection|TestShutdown|TestTick|TestClient|TestStopServer|TestClosedWakeUp|TestDisconnectedAsyncWrite|TestCloseActionError|TestShutdownActionError|TestCloseActionOnOpen|TestShutdownActionOnOpen)", Instrument: true, KeepRepoTests: true}}},
 		{ID: "SMOKE", Level: "model_checking", Rule: "smoke", Assumptions: commonAssumptions,
 			Units: []Unit{{Name: "smoke", Pkg: ".", Tags: "verifmc", Test: "TestMC_Smoke", Instrument: true, Env: []string{"GOMAXPROCS=2"}}}},
 		{
